@@ -43,6 +43,7 @@ def gen_dump(rng):
 
 
 def correspondence(ctx, model_ok):
+    gen.HOSTILE_P = 0.03     # unusual but legal labels: '', '@', 'a@b', mutual prefixes, case pairs
     r = CorrResult()
     r.rule = ('random DAGs with sharing, repeated operands, disconnected parts, plus ~20% deliberately cyclic netlists; '
               'per circuit: top_sort both directions, the cycle check, and 6 traversals (dfs/bfs x direction x random '
